@@ -150,7 +150,14 @@ func newP(b Backend, id string) P {
 	return p
 }
 
-type XP struct{ P }
+// XP has a method Code of its own that gives a stale answer and a field Code2 with the right one: a root that met XP
+// unbound binds the GraphQL field code to the method; RegisterField then binds it to the field, which counts from then on.
+type XP struct {
+	P
+	Code2 string
+}
+
+func (x *XP) Code() string { return "stale: the method bound before RegisterField" }
 
 // XA, XB and XC are Go types whose names differ from the GraphQL type names (no binding by name):
 // they are bound by Root.RegisterType only, possibly AFTER requests have met them unbound.
@@ -168,7 +175,8 @@ func NewAlt(b Backend, typeName, id string) interface{} {
 	case "C":
 		return &XC{C{B: b, ID: id}}
 	case "P":
-		return &XP{newP(b, id)}
+		p := newP(b, id)
+		return &XP{P: p, Code2: p.code}
 	}
 	return New(b, typeName, id)
 }
